@@ -61,7 +61,7 @@ def main():
                 if is_set:
                     t.add(K(k))
                 else:
-                    t[K(k)] = emb.val(2)
+                    t[K(k)] = emb.val(1)
                 return ['ok']
             if is_set:
                 t.remove(K(k))
